@@ -88,7 +88,16 @@ def classify(pid, cfg, p, sname):
             return "known" if p["d4"] == "1" else "oracle"
         return "oracle" if (p["disc"] == "1" or p.get("hyp") == "1") else "ignore"
     if t == "diff":
-        return "tie" if set(p["fields"]) & cfg["fields"] else "ignore"
+        fields = set(p["fields"])
+        d4i = p.get("d4_idx")
+        if d4i is not None and p.get("first_by_field"):
+            # the call d4i destroyed an object the program can still reach (known finding D4, outside
+            # every precondition): from the next call on the program works with a dangling handle and
+            # what happens depends on hash iteration order and memory reuse -- only differences up to
+            # and including that call are a statement about the model (DESIGN 12.9)
+            fb = p["first_by_field"]
+            fields = {f for f in fields if isinstance(fb.get(f), int) and fb[f] <= d4i}
+        return "tie" if fields & cfg["fields"] else "ignore"
     return "ignore"
 
 
@@ -336,6 +345,26 @@ def asan_second_opinion(tier, seed):
     lines = [l for l in S.corpus_lines() if "|A|" in l]
     for name in ("rand_cws", "rand_cwk", "rand_cwa", "rand_cwsp"):
         lines += _lines_of(name, "quick", seed)[:1500]
+    # which of them are inside the preconditions is decided by the ordinary build (quarantine on, so that
+    # a history with a dangling handle runs to its end and prints its flags): disciplined, nothing
+    # reachable destroyed, no escaped handle, no fault in the model -- not even in the observers that
+    # follow the last call ("O fault"). A sanitizer abort hides the flags of the history it kills.
+    base = P.differential(lines)
+    elig = []
+    for l in lines:
+        r = base.get(l.split("|", 1)[0])
+        if not r or r["diff"] or r["halt"] is not None or r["impl"].get("crash"):
+            continue
+        ex = {}
+        for ln in r["impl"]["lines"]:
+            ex = P.parse_line(ln)["extra"] or ex
+        if ex.get("disc") != "1" or ex.get("d4", "0") != "0" or ex.get("esc", "0") != "0":
+            continue
+        if any(ln.rstrip().endswith("O fault") or " O fault" in ln for ln in r["model"]["lines"]):
+            continue
+        elig.append(l)
+    skipped = len(lines) - len(elig)
+    lines = elig
     os.environ["ASAN_OPTIONS"] = "detect_leaks=0:abort_on_error=1:handle_abort=0"
     try:
         res = P.differential(lines, harness=binp, noquarantine=True)
@@ -351,11 +380,12 @@ def asan_second_opinion(tier, seed):
             ex = {}
             for ln in r["impl"]["lines"]:
                 ex = P.parse_line(ln)["extra"] or ex
-            if ex.get("disc", "1") == "1" and ex.get("d4", "0") == "0" and ex.get("esc", "0") == "0":
+            if True:
                 hits.append({"type": "oracle", "hid": hid, "line": r["line"], "idx": d["idx"],
                              "oracle": "C02:sanitizer-or-crash-on-fault-free-history:" + str(d["impl"])[:60].replace(" ", "_"),
                              "disc": "1", "d4": "0", "shrinkable": False})
-    return {"built": True, "histories": len(lines), "implementation_crashes_or_reports": crashed,
+    return {"built": True, "histories": len(lines), "outside_the_preconditions_skipped": skipped,
+            "implementation_crashes_or_reports": crashed,
             "hits": hits[:20], "n_hits": len(hits)}
 
 
@@ -367,7 +397,7 @@ def extra_checks(pid, cfg, tier, seed):
             hits = [{"type": "oracle", "hid": "asan", "line": "cargo +nightly build (ASan)", "idx": 0,
                      "oracle": "C02:asan-build-failed", "disc": "1", "d4": "0", "shrinkable": False}]
         return {"oracle_hits": hits, "evaluations": r["histories"], "distinct_nontrivial": 0,
-                "evidence": {"asan_second_opinion": {k: r.get(k) for k in ("built", "histories", "implementation_crashes_or_reports", "n_hits")}}}
+                "evidence": {"asan_second_opinion": {k: r.get(k) for k in ("built", "histories", "outside_the_preconditions_skipped", "implementation_crashes_or_reports", "n_hits")}}}
     if pid == "C07":
         r = _cached("c07-%s-%s" % (tier, seed), lambda: c07_std(tier, seed))
         g = _cached("glue", glue_run)
